@@ -165,6 +165,9 @@ def units(tier):
     for solver, df, pen, sparse in REFUSALS:
         us.append(Unit('C10/D/refusal[%s,%s,%s,sparse=%s]' % (solver, df, pen, sparse), u_refusal,
                        dict(solver=solver, datafit=df, penalty=pen, sparse=sparse), wall_s=60))
+    for X, fi in (('corr32', False), ('corr32', True), ('gen32', True)):
+        us.append(Unit('C10/S/pn_linesearch[X=%s,intercept=%s]' % (X, fi), ST.u_pn_linesearch, dict(X=X, fit_intercept=fi),
+                       wall_s=120, timeout_ms=8000, patched=True))
     return us
 
 
